@@ -115,8 +115,10 @@ def validate(module, traces, label, parallel=4, timeout=2400):
                 verdicts[v[1]] = (v[2], v[3])
             elif isinstance(v, tuple) and len(v) >= 4 and v[0] == "M":
                 models[v[1]] = (v[2], v[3], v[4] if len(v) > 4 else 0)      # v[4]: bit mask over trace["dev"]
-            elif isinstance(v, tuple) and len(v) == 6 and v[0] == "P":
+            elif isinstance(v, tuple) and len(v) == 6 and v[0] == "P":      # clause, step, in sync, mask
                 props.setdefault(v[1], []).append((v[2], v[3], bool(v[4]), v[5]))
+            elif isinstance(v, tuple) and len(v) == 7 and v[0] == "P":      # clause, instance, step, in sync, mask
+                props.setdefault(v[1], []).append((f"{v[2]}@{v[3]}" if v[3] else v[2], v[4], bool(v[5]), v[6]))
         miss = [t["id"] for t in part if t["id"] not in verdicts or t["id"] not in models]
         if miss:
             raise tlc.TLCFailure(f"{label}: no verdict/model line for {len(miss)} traces (first {miss[:3]})")
@@ -158,20 +160,23 @@ def judge(chk, fam, module, traces, meta, all_devs, label, parallel, pre=None):
     # every deviation of the spec switched on and name the non-open deviations they exercised.
     relapse = {}
     lost = [tid for tid, ps in props.items() if any(not p[2] for p in ps)]
-    if lost and set(all_devs) != set(as_code):
+    others = [d for d in all_devs if d not in as_code]
+    if lost and others:
         back, copies = {}, []
         for tid in lost:
-            cp = dict(by_id[tid], id=len(copies) + 1, dev=list(all_devs))
-            back[cp["id"]] = tid
-            copies.append(cp)
+            for d in others:            # the as-code model plus ONE further deviation of the spec
+                cp = dict(by_id[tid], id=len(copies) + 1, dev=list(as_code) + [d])
+                back[cp["id"]] = (tid, d)
+                copies.append(cp)
         _, _, props2, res2 = validate(module, copies, label + "_attr", parallel)
         for r in res2:
-            chk.add_tlc(f"{fam} attribution of unexplained failures (all deviations of the spec)", r, count=False)
+            chk.add_tlc(f"{fam} attribution of unexplained failures (as-code + one more deviation of the spec)", r,
+                        count=False)
         for cid, ps in props2.items():
+            tid, d = back[cid]
             for clause, at, followed, m in ps:
-                extra = [d for i, d in enumerate(all_devs) if isinstance(m, int) and m >> i & 1 and d not in as_code]
-                if followed and extra:
-                    relapse[(back[cid], clause)] = extra
+                if followed and isinstance(m, int) and m >> len(as_code) & 1:
+                    relapse.setdefault((tid, clause), []).append(d)
     for tid, (v, pos) in sorted(verdicts.items()):
         mism, mpos, mask = models[tid]
         origin = meta[tid].get("origin")
@@ -188,7 +193,8 @@ def judge(chk, fam, module, traces, meta, all_devs, label, parallel, pre=None):
         found = props.get(tid)
         if not found:       # single-clause trace specs (election, lock) print "PROP:<clause>" only
             found = [(v[5:], pos, mism == "none" or mpos > pos, mask)]
-        for clause, at, followed, m in found:
+        for inst, at, followed, m in found:
+            clause = inst.split("@")[0]     # "agreement@2" = slot 2; keys name the clause, not the slot
             used = [d for i, d in enumerate(as_code) if isinstance(m, int) and m >> i & 1]
             if followed and used:
                 keys = list(used)
@@ -197,13 +203,13 @@ def judge(chk, fam, module, traces, meta, all_devs, label, parallel, pre=None):
                 keys = list(as_code)
             elif followed:
                 keys = [f"{fam}_{clause}_in_corrected_design"]
-            elif (tid, clause) in relapse:
-                keys = relapse[(tid, clause)]       # deviation(s) of the spec that are not open findings
+            elif (tid, inst) in relapse:
+                keys = relapse[(tid, inst)]       # deviation(s) of the spec that are not open findings
             else:
                 keys = [f"{fam}_{clause}_after_" + mism.replace("MODEL:", "").replace(":", "_")]
             for key in keys:
                 stats["failures_by_key"][key] = stats["failures_by_key"].get(key, 0) + 1
-                chk.violation(key, f"{fam}: contract clause '{clause}' false at step {at} of a real execution "
+                chk.violation(key, f"{fam}: contract clause '{inst}' false at step {at} of a real execution "
                                    f"({origin}); as-code model in sync: {followed}; deviations exercised: {used}",
                               {"family": fam, "meta": meta[tid], "trace": by_id[tid]})
     return stats
@@ -227,12 +233,21 @@ class Traces:
 # single-decree Paxos
 
 PAXOS_DEVS = ["phase2_restart_on_late_promise", "retry_keeps_stale_tallies"]
+# plausible mutations modelled as deviations (never in the pinned code): sensitivity runs, schedules for the
+# real nodes, and names for regressions that match their signature
+PAXOS_PLAUSIBLE = ["adopt_by_ballot_number_only"]
+PAXOS_ALL = PAXOS_DEVS + PAXOS_PLAUSIBLE
 PAXOS_INVS = ["InvAgreement", "InvValidity", "InvFutureTruth", "InvFutureValid"]
 
 
-def paxos_consts(n=3, proposers="{1,2}", once=True, maxb=2, maxp=2, learn=False, quiet=False, dev=()):
+def paxos_consts(n=3, proposers="{1,2}", once=True, maxb=2, maxp=2, learn=False, quiet=False, dev=(), cut="{}"):
     return {"N": n, "Proposers": proposers, "Once": tf(once), "MaxBallot": maxb, "MaxProposals": maxp,
-            "Loss": "FALSE", "Learn": tf(learn), "Quiet": tf(quiet), "Dev": dev_set(dev)}
+            "Loss": "FALSE", "Learn": tf(learn), "Quiet": tf(quiet), "Dev": dev_set(dev), "Cut": cut}
+
+
+# n1 and n3 propose at any time (same ballot numbers), are partitioned from each other for the whole run and
+# reach each other's values only through n2: retries after nacks, Accepts overtaken by a competing decision
+PAXOS_CUT = dict(proposers="{1,3}", cut="{{1,3}}")
 
 
 def paxos_jobs(jobs, tier):
@@ -249,7 +264,7 @@ def paxos_jobs(jobs, tier):
     live = paxos_consts(proposers="{1}", maxb=1, maxp=1, learn=True)
     jobs.submit("paxos_live_clean", lambda: mc(P, "paxos_live_clean", live, PAXOS_INVS, ["PropStability", "Progress"],
                                                spec="FairSpec", workers=small))
-    ascode = dict(live, Dev=dev_set(PAXOS_DEVS))
+    ascode = dict(live, Dev=dev_set(open_devs(PAXOS_DEVS)))
     jobs.submit("paxos_live_ascode", lambda: mc(P, "paxos_live_ascode", ascode, [], ["Progress"], spec="FairSpec",
                                                 workers=small, dot=True))
     jobs.submit("paxos_dev_retry_keeps_stale_tallies", lambda: mc(
@@ -257,6 +272,13 @@ def paxos_jobs(jobs, tier):
     jobs.submit("paxos_dev_phase2_restart_on_late_promise", lambda: mc(
         P, "paxos_dev_restart", paxos_consts(maxb=3, quiet=True, dev=["phase2_restart_on_late_promise"]), PAXOS_INVS,
         workers=big))
+    # partitioned competing proposers: corrected design, the plausible tie deviation, and the as-code graph
+    jobs.submit("paxos_clean_cut", lambda: mc(P, "paxos_clean_cut", paxos_consts(maxb=3, maxp=3, once=False, **PAXOS_CUT),
+                                              PAXOS_INVS, ["PropStability"], workers=big))
+    jobs.submit("paxos_dev_adopt_by_ballot_number_only", lambda: mc(
+        P, "paxos_dev_adopt", paxos_consts(dev=["adopt_by_ballot_number_only"], **PAXOS_CUT), PAXOS_INVS, workers=small))
+    jobs.submit("paxos_tour_cut", lambda: mc(P, "paxos_tour_cut", paxos_consts(maxb=3, dev=open_devs(PAXOS_DEVS), **PAXOS_CUT),
+                                             workers=small, dot=True))
 
 
 def run_paxos(chk, jobs, tier, rng, parallel):
@@ -269,8 +291,12 @@ def run_paxos(chk, jobs, tier, rng, parallel):
 
     n_direct, n_sim, n_prog = (120, 16, 10) if tier == "quick" else (900, 120, 60)
     for k in range(n_direct):
-        c, info = P.random_direct(rng, strat=P.STRATS[k % len(P.STRATS)])
-        info["origin"] = "random direct drive"
+        if k % 3 == 2:
+            c, info = P.rounds_direct(rng)
+            info["origin"] = "round-structured direct drive (same-number ballots, held Accepts, retries, heal)"
+        else:
+            c, info = P.random_direct(rng, strat=P.STRATS[k % len(P.STRATS)])
+            info["origin"] = "random direct drive"
         add(c.rec, info)
     for k in range(n_prog):
         n = (3, 4, 5)[k % 3]
@@ -302,22 +328,28 @@ def run_paxos(chk, jobs, tier, rng, parallel):
     chk.add_tlc("Paxos Dev={} FairSpec: single proposer, learners, Progress", res)
     chk.require(res.ok, f"Paxos.tla Dev={{}} single proposer violates {res.violated}")
     res = jobs.result("paxos_live_ascode")
-    chk.add_tlc("Paxos Dev=all FairSpec: Progress of the single proposer (as-code) + state graph", res)
+    chk.add_tlc("Paxos as-code FairSpec: Progress of the single proposer + state graph", res)
     chk.require(res.ok, f"Paxos.tla as-code single proposer violates {res.violated}")
-    # exhaustive tour of that small as-code graph, schedule replay on the real nodes
-    dot = tlc.WORK / "C12_paxos_live_ascode" / "graph.dot"
-    g = tlc.parse_dot(dot)
-    n_paths = 0
-    for root, path in tlc.edge_tour(g, max_paths=100 if tier == "quick" else None, rng=rng):
-        states = [g.nodes[root]] + [g.nodes[d] for _, d in path]
-        c, skipped = P.replay_choices(3, P.choices_from_states(states))
-        chk.replays += 1
-        n_paths += 1
-        add(c.rec, {"origin": "edge tour of the single-proposer state graph", "skipped": skipped})
-    dot.unlink(missing_ok=True)
-    chk.extra["paxos_tour"] = {"states": len(g.nodes), "edges": g.n_edges(), "paths": n_paths}
+    res = jobs.result("paxos_clean_cut")
+    chk.add_tlc("Paxos Dev={} (n1,n3 propose up to 3 times at any time, partitioned from each other, ballots<=3)", res)
+    chk.require(res.ok, f"Paxos.tla with Dev={{}} violates {res.violated} (partitioned proposers)")
+    res = jobs.result("paxos_tour_cut")
+    chk.add_tlc("Paxos as-code, partitioned competing proposers n1|n3: full state graph (dot)", res, count=False)
+    # exhaustive tours of the two small as-code graphs, schedule replay on the real nodes
+    for lab, what, cap in (("C12_paxos_live_ascode", "single-proposer", 100), ("C12_paxos_tour_cut", "partitioned-proposers", 160)):
+        dot = tlc.WORK / lab / "graph.dot"
+        g = tlc.parse_dot(dot)
+        n_paths = 0
+        for root, path in tlc.edge_tour(g, max_paths=cap if tier == "quick" else None, rng=rng):
+            states = [g.nodes[root]] + [g.nodes[d] for _, d in path]
+            c, skipped = P.replay_choices(3, P.choices_from_states(states))
+            chk.replays += 1
+            n_paths += 1
+            add(c.rec, {"origin": f"edge tour of the {what} state graph", "skipped": skipped})
+        dot.unlink(missing_ok=True)
+        chk.extra["paxos_tour_" + what] = {"states": len(g.nodes), "edges": g.n_edges(), "paths": n_paths}
     # sensitivity + counterexample replay on the real nodes (R1)
-    for dev in PAXOS_DEVS:
+    for dev in PAXOS_ALL:
         res = jobs.result(f"paxos_dev_{dev}")
         chk.add_tlc(f"Paxos Dev={{{dev}}}", res, count=False, note="sensitivity run, must violate")
         chk.require(res.violated in PAXOS_INVS, f"deviation {dev} not caught (got {res.violated})")
@@ -327,8 +359,8 @@ def run_paxos(chk, jobs, tier, rng, parallel):
         chk.replays += 1
         add(c.rec, {"origin": f"TLC counterexample for Dev={{{dev}}} ({res.violated})", "skipped": skipped})
 
-    pre = yield [(SPEC / "PaxosTrace.tla", T.traces, PAXOS_DEVS, "C12_paxos_trace", parallel)]
-    stats = judge(chk, "paxos", SPEC / "PaxosTrace.tla", T.traces, T.meta, PAXOS_DEVS, "C12_paxos_trace", parallel, pre[0])
+    pre = yield [(SPEC / "PaxosTrace.tla", T.traces, PAXOS_ALL, "C12_paxos_trace", parallel)]
+    stats = judge(chk, "paxos", SPEC / "PaxosTrace.tla", T.traces, T.meta, PAXOS_ALL, "C12_paxos_trace", parallel, pre[0])
     stats["generation_s"] = round(gen_s, 1)
     chk.extra["paxos"] = stats
     t = T.traces[-1]
@@ -619,7 +651,7 @@ def do_replay(chk, path):
     data = json.loads(open(path).read())
     rep = data["replay"]
     fam = rep["family"]
-    module, devs = {"paxos": ("PaxosTrace.tla", PAXOS_DEVS), "multi": ("MultiTrace.tla", MULTI_DEVS),
+    module, devs = {"paxos": ("PaxosTrace.tla", PAXOS_ALL), "multi": ("MultiTrace.tla", MULTI_DEVS),
                     "elect": ("ElectionTrace.tla", []), "lock": ("LockTrace.tla", [])}[fam]
     t = rep["trace"]
     t["id"] = 1
